@@ -1,7 +1,7 @@
 (* Extraction of the executable model for the correspondence drivers.
    ExtrOcamlBasic only: bool/option/unit/list/prod/sumbool/sumor map to OCaml's own types;
    no Extract Constant; N, Z, positive, nat stay Coq inductives. *)
-Require Import Htp.Model.Base Htp.Model.MList Htp.Model.MBstr.
+Require Import Htp.Model.Base Htp.Model.MList Htp.Model.MBstr Htp.Model.MTable.
 Require Import ExtrOcamlBasic.
 Extraction Language OCaml.
 Extraction "model.ml"
@@ -12,4 +12,5 @@ Extraction "model.ml"
   MBstr.index_of_mem MBstr.index_of_mem_nocase MBstr.index_of_mem_nocasenorzero
   MBstr.begins_with_mem MBstr.begins_with_mem_nocase MBstr.bstr_chr MBstr.bstr_rchr MBstr.mem_trim MBstr.to_lowercase
   MBstr.add_mem_noex MBstr.mem_to_pint MBstr.parse_positive_integer_whitespace MBstr.parse_content_length
-  MBstr.parse_chunked_length MBstr.parse_status MBstr.parse_protocol.
+  MBstr.parse_chunked_length MBstr.parse_status MBstr.parse_protocol
+  MTable.tcreate MTable.tstep MTable.mstep MTable.tobserve.
